@@ -11,7 +11,8 @@ PROP = {'counts': {'quick': 150, 'thorough': 5000},
          'sorted/unique, newest input version kept, deletion markers dropped only when no older version '
          'survives elsewhere, every Get after reopen = latest write; non-trivial = at least one executed '
          'compaction whose inputs hold two versions of a key or a deletion marker, followed by a reopen; '
-         'distinct by case text',
+         'distinct by case text'
+         ' Added later: restart-then-size-ratio, deep-tombstone and fault-injected families (mode=fault, oracle only: a compaction cycle whose output cannot be completed because no file can be opened after the first finished output table — through TriggerCompaction and inside the background worker — must leave its input tables alone).',
  'assumptions': ['the model describes the REPAIRED compaction code (/repo deebfc9, cf3362d, ca9115b, 390f6e5, f30cabd); the pre-fix model and its witnesses live in coq/CompactionBefore*.v',
                  'background flush goroutine parked at a verifhook gate; CompactionInterval 3600 s except in '
                  "the 'auto' operation; file sizes (os.Stat) and the tombstone tracker's 24 h wall-clock "
